@@ -307,39 +307,43 @@ def u3(ctx, F, D):
         wtab[(variant, owner)] = got
         ctx.check("C12.U3", "writer:%s %s" % (variant, owner), got == text, fn=WR, file=w["file"], line=w["span"][0],
                   what="castling must be written as the king's two-square move", expected=text, found=got)
+    # reader: evaluate from_uci_notation on each castling text, with the mover's king on / off its home square
+    from .common import summarize_with_returns, position_values
+    from . import inline
     r = F.fn(RD)
-    env = hir.Env(r["hir"], F)
-    sym = hir.Sym(env, F)
-    rtab = {}
-    for n, anc in hir.walk(r["hir"]["body"]):
-        if n.get("k") == "Struct":
-            to = n["to"].get("ctor_of") or n["to"].get("path") or ""
-            if to.endswith(("CastlingShort", "CastlingLong")):
-                owner = None
-                for f in n["fields"]:
-                    if f["name"] == "owner":
-                        o = sym(f["e"])
-                        owner = o[1].split("::")[-1] if o[0] == "variant" else None
-                g = hir.guards_of(n, r["hir"]["body"], sym) or []
-                texts = [x[1][3][1] for x in g if x[0] == "if" and x[2] is True and x[1][0] == "bin" and x[1][1] == "==" and
-                         x[1][2] == ("var", "s") and x[1][3][0] == "lit"]
-                kingpos = [x for x in g if x[0] == "if" and x[2] is True and "get_king_position" in hir.fmt(x[1], 200)]
-                for t in texts:
-                    rtab[t] = (to.split("::")[-1], owner, [hir.fmt(k[1], 120) for k in kingpos])
-    ctx.floor("C12.U3", "reader castling literals", len(rtab), 4)
+    try:
+        rnf = position_values(summarize_with_returns(r, F), F)
+    except (hir.Unsupported, inline.Cannot) as e:
+        ctx.check("C12.U3", "reader-summarisable", False, fn=RD, file=r["file"], nontrivial=False,
+                  what="Move::from_uci_notation can no longer be summarised (loop / unsupported shape): %s" % e)
+        return
+    params = [p_["pat"].get("name") for p_ in r["hir"]["params"]]
+    sname, gname = params[0], params[1]
+    n_ok = 0
     for (variant, owner), text in std.items():
-        got = rtab.get(text)
-        ok = got is not None and got[0] == variant and got[1] == owner
+        row = 0 if owner == "White" else 7
+        king = ("call", "chess::Game::get_king_position", (("var", gname), ("variant", PL + owner)))
+        kfield = None
+        base = {("var", sname): ("lit", text)}
+        home = dict(base)
+        home[king] = ("pos", row, 4)
+        got = hir.fold(rnf, home, D)
+        want = ("ctor", "std::prelude::v1::Some", (("struct", MV + variant, (("owner", ("variant", PL + owner)),)),))
+        ok = got == want
+        n_ok += ok
         ctx.check("C12.U3", "reader:%s" % text, ok, fn=RD, file=r["file"],
                   what="the reader maps a castling string to a different move than the writer prints it for",
-                  expected=(variant, owner), found=got)
-        # the king must stand on its home square for the string to mean castling
-        if got is not None:
-            row = 0 if owner == "White" else 7
-            want = "(Game::get_king_position(game, Player::%s) == Position::new_assert(%d, 4))" % (owner, row)
-            ctx.check("C12.U3", "reader:%s-only-with-king-on-e%d" % (text, row + 1), want in got[2], fn=RD, file=r["file"],
-                      what="the castling reading of the string must require the mover's king on its home square "
-                           "(otherwise e1g1 by a rook or queen is misread)", expected=want, found=got[2])
+                  expected=(variant, owner), found=hir.fmt(got, 160))
+        away = dict(base)
+        away[king] = ("pos", 3, 3)
+        got2 = hir.fold(rnf, away, D)
+        castle = got2[0] == "ctor" and got2[2] and got2[2][0][0] == "struct" and str(got2[2][0][1]).startswith(MV + "Castling")
+        undecided = hir.contains(got2, ("struct", MV + variant, (("owner", ("variant", PL + owner)),)))
+        ctx.check("C12.U3", "reader:%s-only-with-king-on-e%d" % (text, row + 1), not castle and not undecided, fn=RD, file=r["file"],
+                  what="the castling reading of the string must require the mover's king on its home square "
+                       "(otherwise e1g1 by a rook or queen is misread)", expected="no castling move when the king is elsewhere",
+                  found=hir.fmt(got2, 160))
+    ctx.floor("C12.U3", "reader castling literals", n_ok, 4)
 
 
 def u4(ctx, F, D):
